@@ -97,7 +97,7 @@ def sample_queries(xs, S):
 
 def generate(rng, tier):
     cases = []
-    for _ in range(260 if tier == "quick" else 6000):
+    for _ in range(gen.N(tier, 260, 6000)):
         S = "Q" if rng.random() < 0.8 else "F"
         shape, xs, flat, bc, lanes = gen_spline(rng, S, tier)
         if rng.random() < 0.08:
@@ -172,7 +172,7 @@ def oracle(case, res):
 def extra(rng, tier):
     """f64 vs the exact run on the same (float) inputs"""
     lines, metas = [], []
-    for _ in range(80 if tier == "quick" else 2000):
+    for _ in range(gen.N(tier, 80, 2000)):
         shape, xs, flat, bc, lanes = gen_spline(rng, "F", tier, nmax=12)
         qs = sample_queries(xs, "F")
         fl = i1_line("F", xs, shape, flat, ("spl", False, bc), e_array("F", [len(qs)], qs))
